@@ -402,6 +402,10 @@ def exhaustive_small():
     for lf in list(range(0, 40)) + [64, 128, 255]:
         ops.append(f"parse ICMP {hexs(icmp_error(r, ext, 136, lf, t=11))}")
         ops.append(f"parse ICMPv6 {hexs(icmp6_error(r, ext, 136, lf))}")
+    # KF-C03-Icmp-1 (reproduced on every run): the length field names a place where no extension structure validates, the
+    # quote is not a multiple of the length unit, and a valid structure sits at offset 128
+    ops.append(f"parse ICMP {hexs(icmp_error(r, ext_structure(r, [ext_object(r, 1, 1, bytes(5))]), 128, 33, t=11))}")
+    ops.append(f"parse ICMPv6 {hexs(icmp6_error(r, ext_structure(r, [ext_object(r, 1, 1, bytes(4))]), 128, 17))}")
     # every ND option length byte on a 40-byte option area
     for l in range(256):
         ops.append(f"parse ICMPv6 {hexs(icmp6_hdr(133, 0, bytes(4)) + bytes([1, l]) + bytes(range(38)))}")
@@ -736,7 +740,66 @@ def unaligned_nd_option(case_lines):
     return False
 
 
+def ext_validates(area):
+    """RFC 4884 extension structure check as the parsers apply it: at least the 4-byte header and a correct checksum"""
+    return len(area) >= 4 and rfc1071(area) == 0
+
+
+def ext_location(n, length_bytes):
+    """where the parsers look for the extension structure in a body of n bytes"""
+    if n == 0:
+        return None
+    if n >= length_bytes and length_bytes >= 128:
+        return length_bytes
+    if n >= 128:
+        return 128
+    return None
+
+
+def rewritten_length_relocates(msg, v6):
+    """ICMP / ICMPv6 error message whose first parse finds no extension structure, whose RFC 4884 length is then derived
+    from the quote rounded up to the length unit (KF-C05-1 / KF-C05-2: the padding itself is not written), so that the
+    re-parse looks at another offset — and a structure with a valid checksum sits there"""
+    if len(msg) < 8 or msg[0] not in ((1, 3) if v6 else (3, 11, 12)):
+        return False
+    unit = 8 if v6 else 4
+    lf = msg[4] if v6 else msg[5]
+    body = msg[8:]
+    n = len(body)
+    loc1 = ext_location(n, lf * unit)
+    if loc1 is not None and ext_validates(body[loc1:]) and len(body[loc1:]) > 4:
+        return False                                            # recognised by the first parse
+    adj = (n + unit - 1) // unit * unit
+    if not (lf != 0 or adj > 128):
+        return False                                            # the length field is left alone
+    loc2 = ext_location(n, (adj // unit) % 256 * unit)
+    return loc2 is not None and loc2 != loc1 and ext_validates(body[loc2:])
+
+
+def icmp_message_of(case_lines):
+    """(message bytes, is_v6) of a `parse ICMP|ICMPv6|IP|IPv6 <hex>` case"""
+    w = case_lines[-1].split(" ")
+    if len(w) != 3 or w[0] != "parse" or w[2] == "-":
+        return None
+    try:
+        b = bytes.fromhex(w[2])
+    except ValueError:
+        return None
+    if w[1] == "ICMP":
+        return b, False
+    if w[1] == "ICMPv6":
+        return b, True
+    if w[1] == "IP" and len(b) >= 20 and b[9] == 1:
+        return b[(b[0] & 15) * 4:struct.unpack("!H", b[2:4])[0]], False
+    if w[1] == "IPv6" and len(b) >= 40 and b[6] == 58:
+        return b[40:40 + struct.unpack("!H", b[4:6])[0]], True
+    return None
+
+
 def refine_sig(sig, case_lines, detail):
     if sig.get("class") == "api" and unaligned_nd_option(case_lines):
-        sig = dict(sig, when="icmpv6-option-size-not-multiple-of-8")
+        return dict(sig, when="icmpv6-option-size-not-multiple-of-8")
+    m = icmp_message_of(case_lines)
+    if m is not None and sig.get("kind") == "spec" and rewritten_length_relocates(*m):
+        return dict(sig, when="rfc4884-derived-length-relocates-extension-structure")
     return sig
